@@ -9,6 +9,22 @@ TRUST = ("TLC 1.8 + CommunityModules; CPython 3.12 asyncio semantics under the d
          "aiohttp code paths only (no C extensions are built in this tree)")
 
 CHECKS = {
+ "C05": dict(
+   technique="Implementation-shaped TLA+ model of one RequestHandler connection (ServerConn.tla) checked exhaustively by TLC over "
+             "all segmentations, handler behaviours, disconnect points, write pauses and timers for small constants; TLC-simulated "
+             "behaviours replayed into the real web.Server/RequestHandler one ready handle at a time; all recorded executions "
+             "(replays + seeded random pipelines around the real queue cap with hostile members) judged by the TLC trace monitor "
+             "ServerConnTrace.tla on observables only",
+   text="Bounded exhaustive model checking of the connection protocol (in-order single responses, queue bound, 4xx-and-close for "
+        "unparsable input, no orphaned request, no escaped exception, pause coherence, no stranded tail) plus two-way conformance: "
+        "model behaviours are forced on the real code handle by handle with the projected state compared after every handle, and "
+        "every real execution is validated by TLC against an observational monitor of the same properties, including response "
+        "framing re-checked in TLA+.",
+   design_ref="DESIGN.md §4 C05",
+   note="cap 2 / resume 1 and bodies <= 2 units in the model (the real 32/16 cap is exercised by the sampled random driver); one "
+        "connection; scripted handlers; handler_cancellation=False; upgrades declined; HTTP/1.0 keep-alive with an unsized "
+        "StreamResponse is left to C02; no access log, no TLS; the wire is split by srvkit's framer and re-checked in TLA+; "
+        "SrvTransport emulates asyncio's fatal-error-on-data_received contract; " + TRUST),
  "C06": dict(
    technique="Implementation-shaped TLA+ model of one pooled client connection with an adversarial peer (ClientConn.tla) checked "
              "exhaustively by TLC; every edge of its state graph (transition cover from TLC's graph dump) plus simulated "
